@@ -66,6 +66,9 @@ class Machine:
         self.axioms = []
         self.div_mode = "quot"
         self.div_guards = []
+        self.defs = []          # definitional constraints only (fresh quotients, trunc, UF axioms)
+        self.divisors = []
+        self._qcache = {}
 
     # ------------------------------------------------------------ solver interface
     def fresh_real(self, name="r"):
@@ -84,6 +87,7 @@ class Machine:
         """definitional side constraint (always true on this path)"""
         self.solver.add(c)
         self.pc.append(c)
+        self.defs.append(c)
 
     def assume(self, c):
         c = simp_bool(c)
@@ -95,9 +99,27 @@ class Machine:
         self.pc.append(c)
 
     def quotient(self, n, d):
+        key = (n.get_id(), d.get_id())
+        if key in self._qcache:
+            return self._qcache[key]
         q = self.fresh_real("q")
         self.define(z3.Implies(d != 0, q * d == n))
+        self.divisors.append(d)
+        self._qcache[key] = q
         return q
+
+    def check_defs_only(self, hyps, prop, timeout_ms=60000):
+        """validity of (definitions and hyps) => prop, WITHOUT the branch conditions of the path (an algebraic identity
+        that holds along the path's computation regardless of why the path was taken)"""
+        s = z3.Solver()
+        s.set("timeout", timeout_ms)
+        for c in self.defs:
+            s.add(c)
+        for h in hyps:
+            s.add(h)
+        s.add(z3.Not(bz(prop)))
+        r = s.check()
+        return ("holds" if r == z3.unsat else "fails" if r == z3.sat else "unknown"), (s.model() if r == z3.sat else None)
 
     def ufun(self, name, *args):
         key = (name, len(args))
@@ -130,6 +152,10 @@ class Machine:
             raise Budget("too many symbolic decisions on one path")
         if k < len(self.prefix):
             d = self.prefix[k]
+        elif getattr(self, "no_feas", False):
+            # explore both sides without asking the solver (used where every branch combination is wanted anyway)
+            self.alts.append(tuple(self.decisions) + (False,))
+            d = True
         else:
             t = self._feasible(c)
             f = self._feasible(z3.Not(c))
@@ -385,6 +411,10 @@ class Machine:
             return FnItem(subst_text(c[11:], fr.env))
         if c.endswith("]") and "::promoted[" in c:
             return self.eval_promoted(fr, c)
+        if c in ("RangeFull", "std::ops::RangeFull", "core::ops::RangeFull"):
+            return Struct("RangeFull", [])
+        if c.startswith("PhantomData") or "::PhantomData" in c.split("(")[0]:
+            return Opaque("phantom")
         if c.startswith("{transmute(") or c.startswith("{alloc") or c.startswith("Slice"):
             raise Unsupported("raw constant " + c[:60])
         m = re.match(r"^(-?\d+)$", c)
